@@ -64,7 +64,9 @@ pub enum Cmd {
     Crash { p: usize },
     Restart { p: usize },
     Join { p: usize },
-    Subscribe { p: usize, prefix: String },
+    /// panicky: the callback panics whenever it is called from a local write of the application
+    /// (a fault of user code; the node has to stay consistent)
+    Subscribe { p: usize, prefix: String, #[serde(default)] panicky: bool },
     Unsubscribe { p: usize, sub: usize },
     Forever { p: usize, sub: usize },
     /// the application drops (attach false) or re-opens (attach true) its receiver of p's
